@@ -31,7 +31,7 @@ def effect_trace(P, b):
                 val = canon(sl.rvalue(st["rv"], bb, i))
                 if re.search(r"find_map\(Iterator::rev\(Iterator::enumerate", a[1]):
                     cls = "x"
-                elif re.search(r"Iterator::collect\(Iterator::filter_map\(Iterator::enumerate", a[1]):
+                elif re.search(r"Iterator::collect\(Iterator::(filter_map|map\(Iterator::filter)\(Iterator::enumerate", a[1]):
                     cls = "c"
                 elif re.search(r"self\.expected_indices\)\)\) as Entry\)\.entry_index$", a[1]):
                     cls = "expected"
@@ -109,7 +109,7 @@ def run(chk, ctx):
         if e:
             rows.add((e[0], pushes))
     chk.require((True, 1) in rows and all(p == 1 for e, p in rows if e) and all(p >= 3 for e, p in rows if not e), "GUARD", "GUARD:expand_c:triple-iff-some-C", "no input C: 1 push; otherwise 3", "expand_c (c_indices.is_empty(), pushes on an acyclic path) = %s" % sorted(rows))
-    fm = [[canon(x) for x in P.call_arg_terms(ec, bb)] for bb, t in ec.calls() if callee_name(t)[0] == "std::iter::Iterator::filter_map"]
+    fm = [[canon(x) for x in P.call_arg_terms(ec, bb)] for bb, t in ec.calls() if callee_name(t)[0] in ("std::iter::Iterator::filter_map", "std::iter::Iterator::filter")]   # the selection, spelled filter_map or filter + map
     chk.require(len(fm) == 1 and bool(re.fullmatch(r"Iterator::enumerate\(\[T\]::iter\(Option::expect\(Vec::pop\(self\.cache\), '[^']*'\)\.entries\)\)", fm[0][0])), "ORG", "ORG:expand_c:all-C-columns-of-this-row", "c_indices = enumerate over the popped row's entries", "expand_c collects C columns from %s" % fm)
     # composition
     seqs = set()
@@ -118,6 +118,8 @@ def run(chk, ctx):
             pass
         names = tuple(nm.split("::")[-1] for bb, nm, a in pi.calls() if nm.startswith(TD) or nm == "stmt::StmtIterator::next_with_context" or (nm.startswith("std::vec::Vec::") and a and canon(a[0]) == "self.cache"))
         empt = [f[3] for f in pi.cmp_facts() if f[0] == "call" and f[1] == "Vec::is_empty" and f[2] == ("self.cache",)]
+        # `is_empty()` is a query without effect: asking again (an assertion, a second guard) does not change the composition
+        names = tuple(n_ for k_, n_ in enumerate(names) if not (n_ == "is_empty" and "is_empty" in names[:k_]))
         seqs.add((empt[0] if empt else None, names))
     tail = ("expand_x", "expand_c", "pop", "check_changed_entries", "generate_input_entries", "generate_expected_entries")
     want = {(False, ("is_empty",) + tail), (True, ("is_empty", "next_with_context", "push") + tail), (True, ("is_empty", "next_with_context"))}
